@@ -667,7 +667,7 @@ def roto_execute(job):
         args, pos = [], 0
         for t, n in pr["layout"]:
             vals = [x0[pos + j] * U for j in range(n)]
-            args.append(pnp.array(vals[0] if n == 1 and len(pr["layout"]) != 1 or (n == 1 and pr["id"] % 2) else vals, requires_grad=bool(t)))
+            args.append(pnp.array(vals[0] if n == 1 and pr["id"] % 3 else vals, requires_grad=bool(t)))     # size 1: scalar or shape (1,)
             pos += n
         shapes = [np.shape(a) for a in args]
 
@@ -799,7 +799,7 @@ def rotosolve_part(tier, seed):
         if roto_compare(pr, h, obs)[0] is None and not any(c[5] for c in h):
             hh = json.loads(json.dumps(h))
             d = pr["tr"].index(True)
-            hh[0][1][d] += 16 // pr["fq"][d] if pr["fq"][d] * (16 // pr["fq"][d]) % 32 else 8      # the maximum instead of the minimum
+            hh[0][1][d] += 16 // pr["fq"][d]      # the maximum instead of the minimum
             if roto_compare(pr, hh, obs)[0] is None:
                 raise lib.MachineryError("Roto comparator accepted a corrupted expectation")
             neg_cmp += 1
